@@ -178,3 +178,91 @@ Lemma nla_oracle :
   = (3%nat, Ok (chunked 50 (List.concat (List.tl (replies nla_srv false))))) /\
   holds (chunked 50 (List.concat (List.tl (replies nla_srv false)))) (List.concat (List.tl (replies nla_srv false))).
 Proof. split; [vm_compute; reflexivity|apply holds_dec; vm_compute; reflexivity]. Qed.
+
+(* ================================================================== NLA against the REFERENCE CredSSP server (RefCredssp.v) *)
+From RdpV Require Import Md5 Md4 Hmac Utf NtlmSeal RefNlmp RefNlmpSeal Der DerRead CsspGate CsspGateExec FlowNla RefCredssp.
+From RdpV Require Import C16_proofs C03_nla_proofs.
+
+(* the CredSSP server of the example: the account of nla_cfg, the CHALLENGE of C15's example, the key of C01's *)
+Definition nla_csrv : cssp_server :=
+  mkCsspServer (mkAccount C15_proofs.ex_user C15_proofs.ex_dom (md4 (utf16le C15_proofs.ex_pw))) C15_proofs.ex_chal C01_proofs.ex_pubkey.
+Definition nla_par : nla_params := mkNla false None C01_proofs.ex_pubkey C15_proofs.ex_nonce C15_proofs.ex_key.
+
+(* its two replies are, byte for byte, the replies of the python reference (gen/credssp.py) used by C01 ... *)
+Lemma nla_reference_replies :
+  cssp_reply1 nla_csrv = C01_proofs.ex_reply1 /\
+  cssp_reply2 md5 hmac_md5 nla_csrv C15_proofs.ex_key = C01_proofs.ex_reply2_ok /\
+  nla_post [C01_proofs.ex_reply1]
+    = nla_stream md5 hmac_md5 nla_csrv nla_par (chunked 50 (List.concat (List.tl (replies nla_srv false)))).
+Proof. repeat split; vm_compute; reflexivity. Qed.
+
+(* ... it accepts the three messages of the reference client, recovers the session key and receives the
+   configured credentials *)
+Lemma nla_serve_ex :
+  cssp_serve md5 hmac_md5 C15_proofs.ascii_upper nla_csrv CsStart [C01_proofs.ex_w1; C01_proofs.ex_w2; C01_proofs.ex_w3]
+  = ([C01_proofs.ex_reply1; C01_proofs.ex_reply2_ok],
+     CsDone C15_proofs.ex_key (utf16le C15_proofs.ex_dom) (utf16le C15_proofs.ex_user) (utf16le C15_proofs.ex_pw)).
+Proof. vm_compute. reflexivity. Qed.
+
+Lemma one_read_dec r : (nlen r <=? 1500) = true -> one_read r.
+Proof. intros H. apply N.leb_le. exact H. Qed.
+
+(* the hypotheses of the NLA theorems hold on this instance *)
+Lemma nla_ok_ex : nla_ok md4 md5 hmac_md5 nla_cfg nla_par nla_csrv.
+Proof.
+  destruct C15_proofs.ex_hypotheses as (Hwf & Hok & Hin & Hun & Hkx & Huni & _ & _).
+  unfold nla_ok. split; [|split; [vm_compute; reflexivity|split; [vm_compute; reflexivity|split; [vm_compute; reflexivity|split; [vm_compute; reflexivity|split]]]]].
+  - unfold cssp_conforming. cbn [nla_csrv cs_challenge cs_account]. split; [exact Hwf|]. split.
+    + exists C15_proofs.ex_pairs, [], C15_proofs.ex_ts. split; [reflexivity|]. split; [exact Hok|]. split; [exact Hin|].
+      split; [exact Hun|reflexivity].
+    + split; [exact Hkx|left; exact Huni].
+  - apply one_read_dec. vm_compute. reflexivity.
+  - apply one_read_dec. vm_compute. reflexivity.
+Qed.
+
+(* FlowRun's executable instance IS the generic model flow_nla at the concrete hash and codec functions *)
+Lemma nla_run_generic :
+  flow_nla md4 md5 hmac_md5 C15_proofs.ascii_upper Debug x_create_ts_request x_create_ts_authenticate x_create_ts_credentials
+           x_create_ts_authinfo (x_read_ts_server_challenge Debug) (x_read_ts_validate Debug)
+           (ber_connect_response Debug) true (tls_after (nla_post [C01_proofs.ex_reply1]))
+           nla_cfg nla_par 5 [ref_confirm nla_srv] (nla_post [C01_proofs.ex_reply1])
+  = nla_run.
+Proof. vm_compute. reflexivity. Qed.
+
+(* the other modes on the same exchange: hash mode (the password field stays empty), blank credentials *)
+Definition nla_par_hash : nla_params :=
+  mkNla false (Some (md4 (utf16le C15_proofs.ex_pw))) C01_proofs.ex_pubkey C15_proofs.ex_nonce C15_proofs.ex_key.
+Definition nla_par_blank : nla_params := mkNla true None C01_proofs.ex_pubkey C15_proofs.ex_nonce C15_proofs.ex_key.
+
+Definition nla_cssp_ex (n : nla_params) : outcome unit * list bytes :=
+  nla_cssp md4 md5 hmac_md5 C15_proofs.ascii_upper Debug x_create_ts_request x_create_ts_authenticate x_create_ts_credentials
+           x_create_ts_authinfo (x_read_ts_server_challenge Debug) (x_read_ts_validate Debug)
+           nla_cfg n (nla_stream md5 hmac_md5 nla_csrv n []).
+
+Lemma nla_modes_ex :
+  nla_cssp_ex nla_par = (Ok tt, [C01_proofs.ex_w1; C01_proofs.ex_w2; C01_proofs.ex_w3]) /\
+  (fst (nla_cssp_ex nla_par_hash) = Ok tt /\
+   snd (cssp_serve md5 hmac_md5 C15_proofs.ascii_upper nla_csrv CsStart (snd (nla_cssp_ex nla_par_hash)))
+   = CsDone C15_proofs.ex_key (utf16le C15_proofs.ex_dom) (utf16le C15_proofs.ex_user) []) /\
+  (fst (nla_cssp_ex nla_par_blank) = Ok tt /\
+   snd (cssp_serve md5 hmac_md5 C15_proofs.ascii_upper nla_csrv CsStart (snd (nla_cssp_ex nla_par_blank)))
+   = CsDone C15_proofs.ex_key [] [] []).
+Proof. repeat split; vm_compute; reflexivity. Qed.
+
+(* the reference server does not accept just anything: one flipped bit in the sealed public key of the second message
+   or in the sealed credentials of the third, an account with another NT hash, a server whose certificate has another
+   key (the client sealed the key of the certificate IT saw: a relayed exchange), the second message sent twice, the
+   second message without the first -- each ends in CsRefused *)
+Definition flip_last (b : bytes) : bytes := firstn (List.length b - 1) b ++ [N.lxor (last b 0) 1].
+
+Lemma nla_serve_rejects :
+  let serve := cssp_serve md5 hmac_md5 C15_proofs.ascii_upper in
+  let w1 := C01_proofs.ex_w1 in let w2 := C01_proofs.ex_w2 in let w3 := C01_proofs.ex_w3 in
+  snd (serve nla_csrv CsStart [w1; flip_last w2; w3]) = CsRefused /\
+  snd (serve nla_csrv CsStart [w1; w2; flip_last w3]) = CsRefused /\
+  snd (serve (mkCsspServer (mkAccount C15_proofs.ex_user C15_proofs.ex_dom (md4 (utf16le C15_proofs.ex_user)))
+                           C15_proofs.ex_chal C01_proofs.ex_pubkey) CsStart [w1; w2; w3]) = CsRefused /\
+  snd (serve (mkCsspServer (cs_account nla_csrv) C15_proofs.ex_chal (C01_proofs.ex_pubkey ++ [1])) CsStart [w1; w2; w3]) = CsRefused /\
+  snd (serve nla_csrv CsStart [w1; w2; w2]) = CsRefused /\
+  snd (serve nla_csrv CsStart [w2]) = CsRefused.
+Proof. repeat split; vm_compute; reflexivity. Qed.
